@@ -84,6 +84,9 @@ func crashGen(r *rand.Rand, mode string, thorough bool) dbCase {
 		if mode == "async" && r.Intn(2) == 0 {
 			// log more than the (fixed, 4 MiB) WAL write buffer so that buffer flushes cut records
 			big := pick(r, 300_000, 700_000, 1_500_000)
+			if r.Intn(5) == 0 {
+				big = 4_400_000 // a single record larger than the WAL buffer (and than the reader's buffer)
+			}
 			n := 3 + r.Intn(8)
 			var prog []dbOp
 			for i := 0; i < n; i++ {
@@ -956,6 +959,7 @@ func crashsimMain(c *Ctx) {
 		dc := crashGen(r, c.Mode, c.Thorough())
 		tape := simrt.NewTape(seed)
 		plan := crashPlan{mode: c.Mode, thorough: c.Thorough(), all: c.Thorough() || c.Mode == "async", count: true}
+		c.Begin(seed, dc)
 		out := runCrashCase(c, dc, tape, plan)
 		c.Res.Runs++
 		c.RunHash(out.trace, out.pickHash, out.histD, strings.Join(out.imageHashes, ","), len(out.vs))
